@@ -78,8 +78,39 @@ func strBytes(v value) []value {
 	panic(fmt.Sprintf("strBytes %T", v))
 }
 
-// mkStr normalises a byte vector: all-concrete becomes a Go string.
+// ropeElem is a formatted chunk of unknown length sitting in a []byte buffer
+// (strconv.AppendQuote of symbolic text).
+type ropeElem struct{ r *Rope }
+
+// mkStr normalises a byte vector: all-concrete becomes a Go string, buffers
+// holding formatted chunks become a Rope.
 func mkStr(bs []value) value {
+	hasRope := false
+	for _, b := range bs {
+		if _, ok := b.(ropeElem); ok {
+			hasRope = true
+		}
+	}
+	if hasRope {
+		out := &Rope{}
+		var run []value
+		flush := func() {
+			if len(run) > 0 {
+				out.parts = append(out.parts, ropeOf(mkStr(run)).parts...)
+				run = nil
+			}
+		}
+		for _, b := range bs {
+			if re, ok := b.(ropeElem); ok {
+				flush()
+				out.parts = append(out.parts, re.r.parts...)
+			} else {
+				run = append(run, b)
+			}
+		}
+		flush()
+		return out
+	}
 	for _, b := range bs {
 		if _, ok := b.(uint8); !ok {
 			return SymStr(bs)
@@ -188,6 +219,12 @@ func (i *interpreter) binop(op token.Token, t types.Type, x, y value) value {
 			panic(unsupported{"float arithmetic on symbolic value"})
 		}
 		return i.symBinop(op, x, y)
+	}
+	if xf, ok := x.(*symFloat); ok {
+		return i.symFloatCmp(op, xf, y, false)
+	}
+	if yf, ok := y.(*symFloat); ok {
+		return i.symFloatCmp(op, yf, x, true)
 	}
 	if isStr(x) && isStr(y) && (isSymbolic(x) || isSymbolic(y)) {
 		switch op {
@@ -739,4 +776,20 @@ func (i *interpreter) concSymElem(se *symElem) *value {
 		return &se.base[k]
 	}
 	return &se.base[k].(structure)[se.field]
+}
+
+// symFloatCmp: comparisons on an opaque float. NaN compares false (!= true);
+// otherwise the outcome is a free boolean, one per (value, operator, operand).
+func (i *interpreter) symFloatCmp(op token.Token, f *symFloat, other value, flipped bool) value {
+	switch op {
+	case token.EQL, token.NEQ, token.LSS, token.LEQ, token.GTR, token.GEQ:
+	default:
+		panic(unsupported{"float arithmetic on an opaque float value"})
+	}
+	if f.class == fNaN {
+		return op == token.NEQ
+	}
+	i.stub("comparison on a float parsed from symbolic text (free outcome)")
+	name := fmt.Sprintf("uf_fcmp_%d_%s_%v_%v", f.id, sanitize(op.String()), flipped, sanitize(fmt.Sprint(other)))
+	return i.boolVal(i.tt.Var(name, 0))
 }
